@@ -35,6 +35,9 @@ pub enum Reply {
     StaleEcho,
     /// `+OK`, bulk "x<n>"
     WrongEcho,
+    /// `+OK`, then after 20 virtual ms the value of the most recent PING seen on this pool (on
+    /// any connection): the exact echo unless another recycle started meanwhile
+    ConcurrentEcho,
     /// `+OK`, `+PONG`
     Pong,
     /// `+OK`, `:n` (the same value as a RESP integer; redis-rs converts it to the
@@ -64,6 +67,7 @@ impl Reply {
             Reply::SlowCorrect => "SlowCorrect",
             Reply::StaleEcho => "StaleEcho",
             Reply::WrongEcho => "WrongEcho",
+            Reply::ConcurrentEcho => "ConcurrentEcho",
             Reply::Pong => "Pong",
             Reply::IntEcho => "IntEcho",
             Reply::ErrorReply => "ErrorReply",
@@ -170,6 +174,8 @@ pub fn generate(rng: &mut Rng, thorough: bool) -> Scenario {
             let kinds: &[Reply] = if recycle_timeout_ms.is_some() {
                 &[
                     Reply::SlowCorrect,
+                    Reply::ConcurrentEcho,
+                    Reply::ConcurrentEcho,
                     Reply::StaleEcho,
                     Reply::WrongEcho,
                     Reply::Pong,
@@ -185,6 +191,8 @@ pub fn generate(rng: &mut Rng, thorough: bool) -> Scenario {
             } else {
                 &[
                     Reply::SlowCorrect,
+                    Reply::ConcurrentEcho,
+                    Reply::ConcurrentEcho,
                     Reply::StaleEcho,
                     Reply::WrongEcho,
                     Reply::Pong,
